@@ -365,8 +365,10 @@ func (v *Verifier) safetyPropsFor(fn *ssa.Function) []string {
 	switch shortPkg(p.Pkg.Path()) {
 	case "file", "main":
 		return []string{"C19"}
+	case "valid", "internal":
+		return []string{"C13"}
 	}
-	return []string{"C13"}
+	return nil // package log: no listed property depends on its safety
 }
 
 // ---------------------------------------------------------------------------
@@ -435,12 +437,16 @@ func runCover(o *Obligation, work string, seed int, fullTimeout int) string {
 	quant := false
 	for _, l := range strings.Split(q, "\n") {
 		if strings.Contains(l, "(forall ") || strings.Contains(l, "(exists ") {
-			quant = true
+			// definitional axioms of the encoding (sidx, box/unbox, bytes2str) are conservative extensions:
+			// a model of the rest extends to them
+			if !(strings.Contains(l, "(sidx o i)") || strings.Contains(l, "(unbox.") && strings.Contains(l, ":pattern ((box.") || strings.Contains(l, "(bytes2str a o n)")) {
+				quant = true
+			}
 			continue
 		}
 		kept = append(kept, l)
 	}
-	r := runSMTPost(work, o.Name+".qf", strings.Join(kept, "\n"), "", 6, seed, []string{"z3-new", "z3"})
+	r := runSMTPost(work, o.Name+".qf", strings.Join(kept, "\n"), "", 6, seed, []string{"z3-new"})
 	if r.Status == "unsat" {
 		return "unsat"
 	}
@@ -448,7 +454,7 @@ func runCover(o *Obligation, work string, seed int, fullTimeout int) string {
 		return "sat"
 	}
 	relaxed := r.Status == "sat"
-	r = runSMTPost(work, o.Name, q, "", fullTimeout, seed, []string{"z3-new", "z3"})
+	r = runSMTPost(work, o.Name, q, "", fullTimeout, seed, []string{"z3-new"})
 	if r.Status == "sat" || r.Status == "unsat" {
 		return r.Status
 	}
